@@ -89,6 +89,57 @@ class IntField(Harness):
                       inputs={"buf": buf, "w": w, "enc": enc_name, "order": order, "off": off})
 
 
+PAIRS = [(16, 32), (32, 16), (8, 16), (16, 8), (24, 32), (16, 16), (8, 8)]
+
+
+def int_want(buf, off, w, enc_name, order):
+    u = field_bits(buf.items, off, w)
+    if order == ORDERS[1]:
+        by = [z3.Extract(w - 1 - 8 * i, w - 8 - 8 * i, u) for i in range(w // 8)]
+        by.reverse()
+        u = by[0] if len(by) == 1 else z3.Concat(*by)
+    return z3.ZeroExt(bv.W - w, u) if enc_name == "unsigned" else z3.SignExt(bv.W - w, u)
+
+
+class IntPair(Harness):
+    """two whole-byte integer fields of possibly different widths / byte orders decoded one after the other in ONE process (separate
+    encoding objects, or the same object twice when the widths agree): each value must be that of its own bits"""
+    kind = "int-pair"
+
+    def run(self, ctx):
+        lib = self.lib
+        cfg = choose(ctx, "cfg", len(PAIRS) * 3 * 4 * 2)
+        w1, w2 = PAIRS[cfg % len(PAIRS)]
+        cfg //= len(PAIRS)
+        enc_name = ENCS[cfg % 3]
+        cfg //= 3
+        o1, o2 = ORDERS[cfg % 2], ORDERS[(cfg // 2) % 2]
+        cfg //= 4
+        off = (0, 3)[cfg % 2]
+        same_obj = w1 == w2 and o1 == o2
+        e1 = lib.encodings.IntegerDataEncoding(w1, enc_name, byte_order=o1)
+        e2 = e1 if same_obj else lib.encodings.IntegerDataEncoding(w2, enc_name, byte_order=o2)
+        obl, inputs = [], {"enc": enc_name, "off": off, "w1": w1, "w2": w2, "o1": o1, "o2": o2, "same_obj": same_obj}
+        obs = {}
+        for n, (w, order, e) in enumerate(((w1, o1, e1), (w2, o2, e2)), 1):
+            buf = bv.fresh_bytes(f"B{n}_", (off + w + 7) // 8 + 1)
+            inputs[f"buf{n}"] = buf
+            packet = lib.packets.CCSDSPacket(raw_data=buf)
+            packet.raw_data.pos = off
+            try:
+                v = lib.parameter_types.IntegerParameterType(f"T{n}", e).parse_value(packet)
+            except Exception as ex:     # noqa: BLE001
+                return result("exc:" + type(ex).__name__, [(f"field {n}: decoding an in-bounds field raises nothing", False)], observe={}, inputs=inputs)
+            ok = type(v) is lib.common.IntParameter
+            obl.append((f"field {n} ({w}-bit {order}): value class is IntParameter", ok))
+            if ok:
+                obl.append((f"field {n} ({w}-bit {order}): value of its own bits", v.t == int_want(buf, off, w, enc_name, order)))
+                rv = v.raw_value
+                obl.append((f"field {n}: raw_value equals value", isinstance(rv, bv.SymInt) and z3.eq(z3.simplify(rv.t), z3.simplify(v.t))))
+            obs[f"value{n}"] = v
+        return result("ok", obl, observe=obs, inputs=inputs)
+
+
 FLOATS = [("IEEE754", 16), ("IEEE754", 32), ("IEEE754", 64), ("IEEE754_1985", 32), ("MILSTD_1750A", 32)]
 
 
@@ -157,7 +208,7 @@ class Twin(IntField):
 def make(job):
     w = job["params"].get("w", 64)
     lib = bv.install(8 * ((w + 7) // 8 + 2) + 64)
-    h = {"int": IntField, "float": FloatField, "twin": Twin}[job["h"]](job)
+    h = {"int": IntField, "pair": IntPair, "float": FloatField, "twin": Twin}[job["h"]](job)
     h.lib = lib
     return h
 
@@ -165,6 +216,7 @@ def make(job):
 def jobs(tier):
     widths = META["bounds"]["quick"]["integer widths"] if tier == "quick" else list(range(1, 129))
     out = [{"name": f"int-w{w}", "h": "int", "params": {"w": w}, "must_reach": ["ok"], "split": 12, "chunk": 12} for w in widths]
+    out.append({"name": "int-pair", "h": "pair", "params": {"w": 40}, "must_reach": ["ok"], "split": 16, "chunk": 30})
     out += [{"name": f"float-{FLOATS[i][0]}-{FLOATS[i][1]}", "h": "float", "params": {"fi": i, "w": FLOATS[i][1]}, "must_reach": ["ok"],
              "split": 8, "chunk": 40} for i in range(len(FLOATS))]
     return out
@@ -180,6 +232,20 @@ def concrete(req):
     from space_packet_parser.xtce import encodings, parameter_types
     from spv.obs import enc_concrete
     i = req["input"]
+    if req["kind"] == "int-pair":
+        e1 = encodings.IntegerDataEncoding(i["w1"], i["enc"], byte_order=i["o1"])
+        e2 = e1 if i["same_obj"] else encodings.IntegerDataEncoding(i["w2"], i["enc"], byte_order=i["o2"])
+        out = {"cls": "ok"}
+        for n, e in ((1, e1), (2, e2)):
+            pkt = packets.CCSDSPacket(raw_data=bytes.fromhex(i[f"buf{n}"]["hex"]))
+            pkt.raw_data.pos = i["off"]
+            try:
+                v = parameter_types.IntegerParameterType(f"T{n}", e).parse_value(pkt)
+            except Exception as ex:   # noqa: BLE001
+                return {"cls": type(ex).__name__}
+            out[f"value{n}"] = enc_concrete(int(v)) if isinstance(v, int) else repr(v)
+            out[f"raw{n}"] = enc_concrete(v.raw_value)
+        return out
     buf = bytes.fromhex(i["buf"]["hex"])
     if req["kind"] == "int-field":
         enc = encodings.IntegerDataEncoding(i["w"], i["enc"], byte_order=i["order"])
@@ -204,6 +270,22 @@ def judge(req, got):
     if got.get("cls") in ("WORKER-ERROR", "WORKER-DIED"):
         return "error", str(got)[:300]
     i = req["input"]
+    if req["kind"] == "int-pair":
+        if got.get("cls") != "ok":
+            return "reproduced", f"two integer fields decoded in a row: raised {got.get('cls')}"
+        bad = []
+        for n in (1, 2):
+            buf = bytes.fromhex(i[f"buf{n}"]["hex"])
+            w, off, order = i[f"w{n}"], i["off"], i[f"o{n}"]
+            u = int("".join(f"{b:08b}" for b in buf)[off:off + w], 2)
+            if order == ORDERS[1]:
+                u = int.from_bytes(u.to_bytes(w // 8, "big"), "little")
+            want = u if i["enc"] == "unsigned" or u < (1 << (w - 1)) else u - (1 << w)
+            if got[f"value{n}"] != want or got[f"raw{n}"] != want:
+                bad.append(f"field {n} ({w}-bit {i['enc']} {order}, offset {off}, bytes {buf.hex()}): expected {want}, got value {got[f'value{n}']} raw {got[f'raw{n}']}")
+        if bad:
+            return "reproduced", "two integer fields decoded one after the other in one process: " + "; ".join(bad)
+        return "not-reproduced", "agrees"
     buf = bytes.fromhex(i["buf"]["hex"])
     bits = "".join(f"{b:08b}" for b in buf)
     w, off = i["w"], i["off"]
